@@ -249,12 +249,54 @@ func (g *c05Gen) body(depth int, files []string, allowTags bool) []*c05Tpl {
 
 func init() { streams["C05"] = runC05 }
 
+// where the front-matter block of a file ends: every text up to length 7 (thorough 9) over dash, line feed and a
+// letter, and written-out blocks with carriage returns, blanks after the fences, dashes inside lines, several fences,
+// no closing fence - the model's split against extractFrontMatter's (texts whose block is not valid YAML are
+// counted, not compared: the parser is not modelled)
+func c05FrontMatterSplit(r *Run) {
+	var all []string
+	maxLen := 7
+	if r.Thorough() {
+		maxLen = 9
+	}
+	var gen func(p string, n int)
+	gen = func(p string, n int) {
+		all = append(all, p)
+		if n == 0 {
+			return
+		}
+		for _, c := range []string{"-", "\n", "a"} {
+			gen(p+c, n-1)
+		}
+	}
+	gen("", maxLen)
+	for _, open := range []string{"---\n", "---\r\n", "--- \n", "---", "----\n", "--- # c\n", " ---\n", "\n---\n"} {
+		for _, block := range []string{"", "k: v\n", "k: A --- B\nl: z\n", "k: v\r\nl: w\r\n", "# --- c\n", "k: |\n  ---\n  x\n", "k: v"} {
+			for _, closing := range []string{"---\n", "---", "---\r\n", "--- \n", "---\t\nx", "----\n", "", "--\n", "---\n---\n", "\n---\n"} {
+				for _, body := range []string{"", "<p>b</p>", "\n<p>b</p>\n---\nmore", "---\n", "\r\n<p>b</p>"} {
+					all = append(all, open+block+closing+body)
+				}
+			}
+		}
+	}
+	for _, s := range all {
+		has, rest, err := vuego.VerifExtractFrontMatter([]byte(s))
+		if err != nil {
+			r.Count("front-matter-split:invalid-yaml(not compared)")
+			continue
+		}
+		r.Count("front-matter-split:" + map[bool]string{true: "block", false: "none"}[has])
+		r.Case("split", "CSplit "+coqBytes(s), L(A(string(rest))), map[string]any{"file_text": s}, map[string]string{"stream": "front-matter-split"}, has || string(rest) != s)
+	}
+}
+
 func runC05(r *Run) {
 	r.Imports = []string{"Base.Val", "Model.Stack", "Model.Loops", "Model.Include"}
 	r.Rule("include trees up to depth 3 over three component files (plain, with a <template :required> wrapper, with front-matter), each include giving every name as static / interpolated / bound attribute or not at all, " +
 		"names colliding with includer variables and front-matter keys, bound values of every JSON-like type (string, int, bool, list, map, missing, falsy), the same component included several times, " +
 		"shorthand tags registered by WithComponents (also nested in the content of one another, with v-once / v-for / v-if / bound attributes on the tag: the page written with shorthand tags and with <template include> must render the same bytes); probes inside every component and after every include; non-trivial: a name collides, a required name is missing, or a bound non-string value is passed")
 	r.Assume("attribute values contain no HTML-special characters and do not start with '{' or '[' (JSON auto-decoding of static strings is documented behaviour, exercised by the repository's own fixtures); one attribute per name on an include tag")
+	c05FrontMatterSplit(r)
 	c16ShortLong(r) // pages of nested includes written as <template include> and as shorthand tags: same bytes
 	rr := r.Rng
 	n := 1500
@@ -348,7 +390,7 @@ func runC05(r *Run) {
 			return ""
 		}(), false: ""}[err != nil])
 		sort.Slice(comps, func(i, j int) bool { return comps[i].file < comps[j].file })
-		coq := fmt.Sprintf("{| c_world := %s; c_data := %s; c_page := %s |}", coqList(comps, c05Comp.Coq), data.Coq(), c05Coq(page))
+		coq := fmt.Sprintf("CTree {| c_world := %s; c_data := %s; c_page := %s |}", coqList(comps, c05Comp.Coq), data.Coq(), c05Coq(page))
 		nontrivial := strings.Contains(pageSrc, "include=") || strings.Contains(pageSrc, "<card") || strings.Contains(pageSrc, "<row-item") || strings.Contains(pageSrc, "<ui-badge-box")
 		srcs["(page)"] = pageSrc
 		r.Case("includes", coq, obs, map[string]any{"files": srcs}, map[string]string{}, nontrivial)
